@@ -272,8 +272,22 @@ func moves() []move {
 		{"raw-bitflip-msg2", "s2c", 2, func(e *env, v int, p []byte) []byte { q := append([]byte(nil), p...); flip(q[20:], v); return q }},
 		{"raw-bitflip-msg3", "s2c", 3, func(e *env, v int, p []byte) []byte { q := append([]byte(nil), p...); flip(q[20:], v); return q }},
 		// ---- the client's own messages altered on their way to the server ----
-		{"c2s-req-dh-bitflip", "c2s", 2, func(e *env, v int, p []byte) []byte { q := append([]byte(nil), p...); flip(q[24:], v); return q }},
-		{"c2s-set-dh-bitflip", "c2s", 3, func(e *env, v int, p []byte) []byte { q := append([]byte(nil), p...); flip(q[24:], v); return q }},
+		// Only the encrypted parts: the in-tree ServerExchange ignores the plaintext nonce / p / q / fingerprint
+		// fields of the requests (server-side laxness, not a client check), so a flip there changes nothing.
+		{"c2s-req-dh-encrypted-data-bitflip", "c2s", 2, func(e *env, v int, p []byte) []byte {
+			q := append([]byte(nil), p...)
+			if len(q) > 300 {
+				flip(q[len(q)-256:], v)
+			}
+			return q
+		}},
+		{"c2s-set-dh-encrypted-data-bitflip", "c2s", 3, func(e *env, v int, p []byte) []byte {
+			q := append([]byte(nil), p...)
+			if len(q) > 300 {
+				flip(q[len(q)-256:len(q)-8], v)
+			}
+			return q
+		}},
 	}
 }
 
@@ -580,6 +594,6 @@ func main() {
 			}
 		}
 	}
-	c.Obs.Rule = "one adversary move per exchange, every move of the library once per repetition (1 in quick, 12 in thorough) with a random bit position / the enumerated substituted values (all in thorough, three per run in quick): ResPQ {nonce, server_nonce, fingerprint flips; own RSA key; no fingerprints; pq > 2^63; replay}, Server_DH_Params {nonce flips; ciphertext flip / truncation / zeros; answer from a peer without new_nonce; replay; fail message; inner nonce flips; prime substituted by composite, non-safe prime, 2047/2049-bit, small, 0, 2^2047; prime bit flip; generator 0,1,8,9,-1 or failing the residue rule; g_a in {0,1,p-1,p,2,2^1984-5,2^1984,p-2^1984,p-2^1984+3,p+12345}}, dh_gen {nonce flips, hash flip / random, retry, fail, replay}, raw bit flips in each server message, bit flips in the client's messages; plus two honest baselines; non-trivial = distinct (move, variant, seed)"
+	c.Obs.Rule = "one adversary move per exchange, every move of the library once per repetition (1 in quick, 12 in thorough) with a random bit position / the enumerated substituted values (all in thorough, three per run in quick): ResPQ {nonce, server_nonce, fingerprint flips; own RSA key; no fingerprints; pq > 2^63; replay}, Server_DH_Params {nonce flips; ciphertext flip / truncation / zeros; answer from a peer without new_nonce; replay; fail message; inner nonce flips; prime substituted by composite, non-safe prime, 2047/2049-bit, small, 0, 2^2047; prime bit flip; generator 0,1,8,9,-1 or failing the residue rule; g_a in {0,1,p-1,p,2,2^1984-5,2^1984,p-2^1984,p-2^1984+3,p+12345}}, dh_gen {nonce flips, hash flip / random, retry, fail, replay}, raw bit flips in each server message, bit flips in the encrypted parts of the client's messages; plus two honest baselines; non-trivial = distinct (move, variant, seed)"
 	c.Finish()
 }
